@@ -546,6 +546,14 @@ pub fn run() {
       to_ast(&T::Range(false, Box::new(nm("a")), Box::new(nm("b")), false)),
     ])),
     ("a + b, a * b", AstNode::ExpressionList(vec![to_ast(&bin(Op::Add, nm("a"), nm("b"))), to_ast(&bin(Op::Mul, nm("a"), nm("b")))])),
+    // `not` is the negation of the tests only as their very first token; anywhere later it is the function
+    ("a, not(b)", AstNode::ExpressionList(vec![to_ast(&nm("a")), to_ast(&T::Call(Box::new(nm("not")), vec![nm("b")]))])),
+    ("1, not(2)", AstNode::ExpressionList(vec![to_ast(&num(1)), to_ast(&T::Call(Box::new(nm("not")), vec![num(2)]))])),
+    ("a and not(b)", AstNode::ExpressionList(vec![to_ast(&bin(Op::And, nm("a"), T::Call(Box::new(nm("not")), vec![nm("b")])))])),
+    ("a + b, not(a), not(b)", AstNode::ExpressionList(vec![to_ast(&bin(Op::Add, nm("a"), nm("b"))), to_ast(&T::Call(Box::new(nm("not")), vec![nm("a")])), to_ast(&T::Call(Box::new(nm("not")), vec![nm("b")]))])),
+    ("not(not(a))", AstNode::NegatedList(vec![to_ast(&T::Call(Box::new(nm("not")), vec![nm("a")]))])),
+    ("not(a, not(b))", AstNode::NegatedList(vec![to_ast(&nm("a")), to_ast(&T::Call(Box::new(nm("not")), vec![nm("b")]))])),
+    ("[1..2], not(a)", AstNode::ExpressionList(vec![to_ast(&T::Range(true, Box::new(num(1)), Box::new(num(2)), true)), to_ast(&T::Call(Box::new(nm("not")), vec![nm("a")]))])),
   ];
   let mut ut_count = 0u64;
   for (text, expected) in &ut_cases {
